@@ -382,3 +382,73 @@ def stage_attrs(vlib, impl, model, rng, tier, bump, stats):
     for il, a, b, text in list(zip(ilines, iout, mout, docs))[:2]:
         samples.append(dict(case=il[:120], document=text[:200], implementation=a[:160], model=b[:160]))
     return dict(failing=failing, diffs=diffs, notes=notes, samples=samples, evaluations=len(ilines) + len(mlines))
+
+
+# ---------------------------------------------------------------- JSON streams: detection of the encoding
+
+DET_TEXTS = ['[]', '{}', '[1,2]', '{"a":1}', '1', '12', '-1', 'true', 'null', '"a"', '""', '"ab"', '"é"', '"éa"', '"中"', '"中文"', '"Ω1"', '"a中"',
+             '[\n 1]', ' [1]', '\t{}', '["中"]', '["\U0001F600"]', '"\U0001F600"', '\ufeff[1]', '\ufeff1', '7 ', '1e3', '[true]', '[null,"é中"]']
+DET_TARGETS = {'[': 12, '{': 23, '"': 11}
+
+
+def det_target(text):
+    st = text.lstrip("\ufeff \t\n")
+    if st[:1] == '[':
+        return 17 if '"' in st or 'true' in st or 'null' in st else 12
+    if st[:1] == '{':
+        return 23
+    if st[:1] == '"':
+        return 11
+    if st in ('true', 'false'):
+        return 1
+    if st == 'null':
+        return 0
+    return 10 if ('e' in st or '.' in st) else 6
+
+
+def stage_detect(vlib, impl, model, rng, tier, bump, stats, autoutf_detect, pycodec, boms):
+    """streams in the five encodings with and without BOM, whole and cut short, with a wrong or doubled BOM, with zero bytes
+    in front: the implementation's answer vs the model's (whose detection is the extracted rj_detect), and the
+    extracted function vs the Python copy of DetectType on every byte string"""
+    failing, diffs, notes, samples = [], [], [], []
+    n = 700 if tier == "quick" else 25000
+    encs = list(pycodec)
+    items = []
+    for _ in range(n):
+        text = rng.choice(DET_TEXTS)
+        enc = rng.choice(encs)
+        data = text.encode(pycodec[enc])
+        r = rng.random()
+        if r < 0.35:
+            data = boms[enc] + data
+        elif r < 0.42:
+            data = boms[rng.choice(encs)] + data                       # possibly the BOM of another encoding
+        elif r < 0.46:
+            data = boms[enc] + boms[enc] + data
+        r = rng.random()
+        if r < 0.25 and len(data) > 1:
+            data = data[:rng.randint(1, min(len(data), 7))]            # a short prefix
+        elif r < 0.30:
+            data = bytes(rng.randint(0, 3)) + data                      # zero bytes in front
+        elif r < 0.33:
+            data = data + b"\x00"
+        items.append((text, enc, data, det_target(text)))
+    ilines = ["jx.load json stream %d - TT %s" % (ty, d.hex() or "-") for (_, _, d, ty) in items]
+    mlines = ["m.load json stream utf8 %d - TT %s" % (ty, d.hex() or "-") for (_, _, d, ty) in items]
+    dlines = ["m.detect %s" % (d.hex() or "-") for (_, _, d, _) in items]
+    iout = vlib.run_driver(impl, ilines)
+    mout = vlib.run_driver(model, mlines)
+    dout = vlib.run_driver(model, dlines)
+    for (text, enc, data, ty), il, a, b, dd in zip(items, ilines, iout, mout, dout):
+        det = dd.split(" ")[0]
+        if det != autoutf_detect(data):
+            notes.append("rj_detect (Coq) and the Python copy of DetectType differ on %s: %s vs %s" % (data.hex(), det, autoutf_detect(data)))
+        bump("detect %s as %s: %s" % (enc, det, "loads" if a.startswith("OK") else "raises"))
+        if a != b:
+            stats["disagreements"] += 1
+            if len(diffs) < 25:
+                diffs.append(dict(driver="jx", case=il, implementation=a[:200], model=b[:200], stream="%s bytes %s, text %r in %s" % (len(data), data[:16].hex(), text, enc),
+                                  detected=dd[:80], judge="HOLD", why="JSON stream: the load predicted with the detected encoding (rj_detect) differs from the implementation's"))
+    for (text, enc, data, ty), il, a, b, dd in list(zip(items, ilines, iout, mout, dout))[:2]:
+        samples.append(dict(case=il[:120], implementation=a[:100], model=b[:100], detected=dd[:60]))
+    return dict(failing=failing, diffs=diffs, notes=notes[:10], samples=samples, evaluations=len(ilines) + len(mlines) + len(dlines))
